@@ -18,7 +18,7 @@ Date   : Nov 9, 2019
 
 import py
 
-from pymtl3.dsl import Const, MetadataKey
+from pymtl3.dsl import Component, Const, MetadataKey
 from pymtl3.passes.BasePass import BasePass
 from pymtl3.passes.errors import PassOrderError
 
@@ -223,7 +223,10 @@ class PrintTextWavePass( BasePass ):
     # Now we create per-cycle signal value collect functions
     signal_names = []
     for x in top._dsl.all_signals:
-      if x.is_top_level_signal() and x.get_field_name() != "clk" and x.get_field_name() != "reset":
+      # Leave out the clk / reset every component has - not a data port of
+      # an interface that happens to be called clk or reset
+      if x.is_top_level_signal() and \
+         not ( x.get_field_name() in ( "clk", "reset" ) and isinstance( x.get_parent_object(), Component ) ):
         signal_names.append( (x._dsl.level, repr(x)) )
 
     for _, x in [(0, 's.reset')] + sorted(signal_names):
